@@ -59,6 +59,8 @@ DENSE = [
     ("P", _t(("with", "P0", (_y(("T", (_c(("with", "S1", (_y(IB), ("probe",)))), _c(_y(IA), ("probe",), _y(IA))))),)), ("probe",)), (), ()),
     # a task that yields a batch object itself (as a barrier) next to tasks blocked on that batch
     ("P", _t(_y(_L(_c(_y(IA), _y(IB)), _c(_y(_L(IA, ("bt", "a"))), _y(("bt", "b"))), IB))), (), ()),
+    # the library's own DebugBatch/DebugBatchItem (cdef classes without __dict__ in the compiled build) next to a harness kind
+    ("P", _t(_y(_L(_c(_y(("dbi", "x")), _y(IA)), _c(_y(_L(("dbi", "x"), ("dbi", "x")))), ("dbi", "x"))), _y(("dbi", "x"))), (), ()),
 ]
 
 
